@@ -220,3 +220,134 @@ NOT_APPLICABLE = {
 }
 for _p in ["C03", "C04", "C05", "C08", "C09", "C10", "C12", "C13", "C17", "C18", "C19", "C20"]:
     NOT_APPLICABLE.setdefault(_p, "harness family not built yet in this round (work in progress; see DESIGN.md 0 and 5)")
+
+PROPS["C10"] = {
+    "quick": [{"name": "summary", "harnesses": ["c10_summary_buy_not_in_later_loss_window", "c10_summary_buy_reproduces_state"],
+               "jobs": 2}],
+    "thorough": [{"name": "summary", "harnesses": ["c10_summary_buy_not_in_later_loss_window", "c10_summary_buy_reproduces_state"],
+                  "jobs": 2}],
+    "functions": ["portfolio::summary::get_summary_range_delta_indicies", "portfolio::summary::make_simple_summary_txs",
+                  "TxDelta::is_superficial_loss", "get_first_day_in_superficial_loss_period"],
+    "bounds": ("history Buy 10 / Sell 2 at a gain / Sell 5 at a non-superficial loss by the default affiliate on symbolic "
+               "days a<b<c of 2020 (1..200), summary date s in [b,c); state lemma: balance 1..15, ACB 0..10.00"),
+    "outside": ("make_annual_gains_summary_txs, several affiliates, re-emission of unsummarisable rows, the CSV writer; "
+                "the re-run of the summary through the ledger is argued from C01/C02 (same state, same window rule), "
+                "not executed"),
+}
+
+CLAIMS["C10"] = {
+    "text": ("Bounded model checking of the summary-range computation and the summary Buy: for the history Buy / Sell at a "
+             "gain / Sell at a loss that the full run allows, on symbolic dates and every summary date between the two "
+             "sales, the opening Buy the summary emits must carry the summarised balance and must not be dated inside the "
+             "30-day window of the later loss sale (else the re-run denies a loss the full history allowed); and the Buy "
+             "reproduces balance and cost base up to one division's rounding."),
+    "note": (TRUSTED + "Two lemmas over summary.rs; the re-run itself is not executed. Annual-gains mode and multi-affiliate "
+             "summaries are outside the check."),
+    "design_ref": "DESIGN.md 0, 5 C10",
+}
+NOT_APPLICABLE.pop("C10", None)
+
+BIG = ["--max-field-sensitivity-array-size", "4096"]
+COST_FUNCS = ["portfolio::bookkeeping::costs::{calc_total_costs,calc_max_day_cost_per_sec,calc_yearly_max_cost_day}",
+              "MaxSingleDayCosts::{new,observe_new_cost}", "Affiliate::is_default (real ids)"]
+PROPS["C17"] = {
+    "quick": [{"name": "costs", "harnesses": ["c17_carry_forward_closing_value", "c17_other_affiliates_ignored"], "jobs": 2,
+               "cbmc_args": BIG}],
+    "thorough": [{"name": "costs", "harnesses": ["c17_carry_forward_closing_value", "c17_other_affiliates_ignored",
+                                                 "c09_yearly_max_tie"], "jobs": 3, "cbmc_args": BIG}],
+    "functions": COST_FUNCS,
+    "bounds": ("security A settling twice on one day (cost a0 -> a1 -> a2) and security B once on a later day "
+               "(b0 -> b1), all costs symbolic 0..2.00, default affiliate; second harness: rows of affiliate b and of "
+               "the registered affiliate next to a default row; unwind 9 (real id 'default')"),
+    "outside": ("more than 2 securities / 2 days / 3 rows; years without transactions; render_total_costs (tabled, "
+                "Display)"),
+}
+CLAIMS["C17"] = {
+    "text": ("Bounded model checking of calc_total_costs on hand-built deltas with symbolic cost bases: per day and "
+             "security the highest cost after any transaction settling that day, otherwise the cost after the most "
+             "recent earlier transaction (the closing value, not the earlier day's maximum), opening cost before the "
+             "first; row total = sum; yearly row = a day with maximal total; other affiliates' rows listed as ignored "
+             "and changing no figure."),
+    "note": (TRUSTED + "Shapes fixed (2 securities, 2 days); rendering of the table is outside the check."),
+    "design_ref": "DESIGN.md 0, 5 C17",
+}
+NOT_APPLICABLE.pop("C17", None)
+
+SMALL = ["--max-field-sensitivity-array-size", "400"]
+PROPS["C08"] = {
+    "quick": [{"name": "split", "harnesses": shapes("c08_split_by_security_", ["aab", "aba", "baa", "aaa", "abb", "bab", "bba", "bbb"]),
+               "jobs": 8, "cbmc_args": BIG}],
+    "thorough": [{"name": "split", "harnesses": shapes("c08_split_by_security_", ["aab", "aba", "baa", "aaa", "abb", "bab", "bba", "bbb"]),
+                  "jobs": 8, "cbmc_args": BIG}],
+    "functions": ["portfolio::misc::split_txs_by_security"],
+    "bounds": ("3 rows over securities A/B: all 8 assignments of rows to securities (one harness each), symbolic "
+               "settlement days 1..300 and strictly increasing read indices 0..1000 inside each"),
+    "outside": ("more than 3 rows / 2 securities; the loop of approot over the per-security lists and the aggregate "
+                "gains (async, csv readers, 21 GB for calc_cumulative_capital_gains): independence of a security's table "
+                "from other securities' rows is argued from the partition (each txs_to_delta_list call receives only its "
+                "own rows) and is not itself decided by the solver"),
+}
+CLAIMS["C08"] = {
+    "text": ("Bounded model checking of split_txs_by_security: for every assignment of 3 rows to 2 securities and symbolic "
+             "dates / read indices, each security's list is exactly its own rows, in input order, with their own dates; "
+             "no row lost, duplicated or moved to another security."),
+    "note": (TRUSTED + "Only the partition step is decided. That a failing security does not disturb another one "
+             "follows from the per-security call structure of approot (read, not solved); the aggregate-gains clause is "
+             "not covered."),
+    "design_ref": "DESIGN.md 0, 5 C08",
+}
+NOT_APPLICABLE.pop("C08", None)
+
+PROPS["C18"] = {
+    "quick": [{"name": "fx", "harnesses": ["c18_fxt_pair", "c18_brokertx_order_total"], "jobs": 2, "cbmc_args": BIG}],
+    "thorough": [{"name": "fx", "harnesses": ["c18_fxt_pair", "c18_brokertx_order_total"], "jobs": 2, "cbmc_args": BIG}],
+    "functions": ["peripheral::broker::fx_tracker::FxTracker::{new,add_fxt_row,get_fx_txs,fx_tx}",
+                  "<BrokerTx as Ord>::cmp", "<BrokerTx as Into<CsvTx>>::into", "<Tx as TryFrom<CsvTx>>::try_from"],
+    "bounds": ("one FXT pair: both legs with symbolic currency (CAD/USD), sign, amount 0.01..20.00 and day (2 values); "
+               "BrokerTx order: 3 rows with symbolic day, timestamp, tiebreak (none/1/2) and row number"),
+    "outside": ("sheet_to_txs / read_sheet_header (office::Range has no public constructor; regex per row), implicit FX "
+                "rows for trades and dividends (add_implicit_fxt: out of memory in CBMC at 24 GB), option handling of "
+                "tx-export-convert, column-layout independence"),
+}
+CLAIMS["C18"] = {
+    "text": ("Bounded model checking of the currency-conversion tracker: a pair of FXT rows yields exactly one USD.FX row "
+             "with the USD leg's absolute amount, Buy iff USD was received, the rate |CAD/USD| of its two legs, dated as "
+             "the pair, accepted by Tx::try_from; any pair that is not one CAD and one USD leg of opposite sign on the "
+             "same day is an error and its legs are not reused; an unpaired leg is an error. BrokerTx ordering is "
+             "antisymmetric and transitive with FX buys before FX sells on ties."),
+    "note": (TRUSTED + "The spreadsheet reader, the per-activity conversion and the implicit FX rows of USD trades are "
+             "outside the check (see evidence.outside_bounds)."),
+    "design_ref": "DESIGN.md 0, 5 C18",
+}
+NOT_APPLICABLE.pop("C18", None)
+
+PROPS["C04"] = {
+    "quick": [{"name": "lookahead", "harnesses": ["c04_lookahead_split_sell_exact_ratio", "c04_lookahead_split_sell_any_ratio"],
+               "jobs": 2, "cbmc_args": SMALL, "mem_gb": 28, "harness_timeout_s": 2400},
+              {"name": "steps", "harnesses": ["c01_sell_a0_m1", "c01_roc_a0_m1", "c01_split_a0_m7", "c01_sfla_a2_m7"],
+               "jobs": 4}],
+    "thorough": [{"name": "lookahead", "harnesses": ["c04_lookahead_split_sell_exact_ratio", "c04_lookahead_split_sell_any_ratio",
+                                                    "c02_w_otherbuy_sale_sell"],
+                  "jobs": 3, "cbmc_args": SMALL, "mem_gb": 28, "timeout_s": 20000, "harness_timeout_s": 6000},
+                 {"name": "steps", "harnesses": C01_SELL + C01_ROC + C01_SFLA + C01_SPLIT, "jobs": 8, "timeout_s": 14000,
+                  "harness_timeout_s": 3000}],
+    "expect_covers": {"c01_roc_a2_m7": 1, "c01_sfla_a2_m7": 1, "c01_sfla_a0_m1": 1, "c01_sfla_a1_m3": 1,
+                      "c01_sell_a1_m1": 1},
+    "functions": STEP_FUNCS + WINDOW_FUNCS,
+    "bounds": STEP_BOUNDS + "; look-ahead: loss sale, split of the seller's shares (post, pre in 1..4), later sale of 1..60 "
+              "post-split shares, split and later sale at symbolic offsets 0..35/0..45 days",
+    "outside": STEP_OUTSIDE + "; the output-mode clause (text / --csv-output-dir / render model: csv::Writer and tabled are "
+               "not encodable; CsvWriter never writing table errors was seen by reading only); that the rows shown are a "
+               "prefix of the ledger (txs_to_delta_list loop not encoded)",
+}
+CLAIMS["C04"] = {
+    "text": ("Bounded model checking of the rejection rules: each step harness carries the biconditional (rejected iff more "
+             "sold than held / RoC above the cost base / RoC or SfLA on a registered affiliate / whole-number reverse split "
+             "leaving a fraction), non-negative balances, all-affiliate total = sum, registered = no cost base and no gain; "
+             "the window look-ahead harness shows the scan rejects only when a later sale inside the window exceeds the "
+             "holdings, in exact split-period arithmetic."),
+    "note": (TRUSTED + "Known finding F1 is reported by the any-ratio look-ahead harness (rounded split factors reject a "
+             "covered sale). Output modes, the 'correct prefix' clause and exclusion from totals are not covered."),
+    "design_ref": "DESIGN.md 0, 5 C04, 7",
+}
+NOT_APPLICABLE.pop("C04", None)
